@@ -12,6 +12,7 @@ import mirq
 from mirq import show, access_path, AnchorMissing, const_of
 from rulekit import Table
 from rules import common as C
+from rules import vocab as V
 
 TABLE = Table('C07')
 NOT_DECIDED = ('nothing about run-time values beyond what the tables imply; Vec/to_be_bytes/'
@@ -46,7 +47,7 @@ def role_of(field):
         return 'info_hash'
     if 'peer' in f and 'id' in f:
         return 'peer_id'
-    if f in ('block', 'data', 'payload') or 'bytes' in f or 'bits' in f:
+    if 'block' in f or 'data' in f or 'payload' in f or 'bytes' in f or 'bits' in f:
         return 'payload'
     return None
 
@@ -624,3 +625,10 @@ def r_bitfield(cx, rec):
 def r8(cx, rec):
     from rules import C06
     C06.r5(cx, rec)
+
+
+@TABLE.rule('9', 'K7', 'the length prefix of every message kind is compared with that kind\'s own constants (shared with C06): every length the '
+            'client writes is one its decoder accepts', floor=9)
+def r9(cx, rec):
+    from rules import C06
+    C06.r4(cx, rec)
